@@ -67,6 +67,9 @@ MUTANTS = [
     ("abs after the extremum (seed C13b)", "AegeanTools/source_finder.py",
      "            snr = np.nanmax(\n                abs(\n",
      "            snr = abs(\n                np.nanmax(\n", "C13-R4"),
+    ("peak flux stored unsigned", "AegeanTools/source_finder.py",
+     "            source.peak_flux = amp\n",
+     "            source.peak_flux = abs(amp)\n", "C13-R5"),
 ]
 TWINS = [
     ("filter reordered", "AegeanTools/source_finder.py",
@@ -259,6 +262,7 @@ def run(ctx):
     r3(ctx, prog)
     # ---------------------------------------------------------------- R4
     r4(ctx, prog)
+    r5_fields(ctx, prog)
 
 
 def _stmt(pm, n):
@@ -384,6 +388,8 @@ def parity(e, env, fnode=None, depth=0):
                 return parity(r, env, fnode, depth + 1)
         return "E"
     if isinstance(e, ast.Attribute):
+        if norm(e) in env:
+            return env[norm(e)]
         return parity(e.value, env, fnode, depth + 1) \
             if e.attr in ("T", "real") else "E"
     if isinstance(e, ast.Subscript):
@@ -512,3 +518,91 @@ def r4(ctx, prog):
               node=sd[0] if sd else fisl.node)
 
 
+FIELD_PARITY = {"peak_flux": "O", "int_flux": "O", "ra": "E", "dec": "E",
+                "a": "E", "b": "E", "pa": "E", "local_rms": "E",
+                "background": "O", "residual_mean": "O", "residual_std": "E",
+                "flags": "E"}
+
+
+def r5_fields(ctx, prog):
+    ctx.rule("C13-R5", "parity of the catalogue fields written by "
+             "result_to_components under image -> -image: peak and "
+             "integrated flux (and background, residual mean) change sign, "
+             "position, shape, noise and flags do not -- derived from the "
+             "fitted amplitude being the only odd model parameter")
+    fi = prog.func("source_finder.SourceFinder.result_to_components")
+    loops = [l for l in fi.node.body if isinstance(l, ast.For)]
+    if not loops:
+        raise AnalysisError("C13-R5: component loop not found")
+    loop = loops[0]
+    env = {}
+    # model parameters: the amplitude is odd, everything else even
+    for st in ast.walk(loop):
+        if isinstance(st, ast.Assign) and len(st.targets) == 1 and \
+                isinstance(st.targets[0], ast.Name) and \
+                isinstance(st.value, ast.Attribute) and \
+                st.value.attr == "value" and \
+                isinstance(st.value.value, ast.Subscript):
+            key = norm(st.value.value.slice)
+            env[st.targets[0].id] = "O" if "amp" in key else "E"
+    if "O" not in env.values():
+        raise AnalysisError("C13-R5: fitted amplitude not read in the "
+                            "component loop")
+    # the background map negates with the image, the noise map does not
+    env["bkg"] = "O"
+    env["rms"] = "E"
+    seeded = set(env)
+    env["residual"] = "N"
+    n = 0
+    checked = {}
+
+    def visit(stmts):
+        nonlocal n
+        for st in stmts:
+            if isinstance(st, ast.Assign):
+                tg = st.targets
+                if len(tg) == 1 and isinstance(tg[0], (ast.Tuple, ast.List)):
+                    # (ra, dec, a, b, pa) = pix2sky_ellipse(...): even
+                    pv = parity(st.value, env, None)
+                    for el in tg[0].elts:
+                        env[norm(el)] = pv
+                        if isinstance(el, ast.Attribute) and \
+                                norm(el.value) == "source":
+                            checked[el.attr] = (pv, st)
+                    continue
+                if len(tg) == 1 and isinstance(tg[0], ast.Name) and \
+                        tg[0].id in seeded:
+                    continue        # model parameter / map: parity given
+                pv = parity(st.value, env, None)
+                for t in tg:
+                    env[norm(t)] = pv
+                    if isinstance(t, ast.Attribute) and \
+                            norm(t.value) == "source":
+                        checked[t.attr] = (pv, st)
+            elif isinstance(st, ast.AugAssign):
+                pv = parity(ast.BinOp(left=st.target, op=st.op,
+                                      right=st.value), env, None)
+                env[norm(st.target)] = pv
+                if isinstance(st.target, ast.Attribute) and \
+                        norm(st.target.value) == "source":
+                    checked[st.target.attr] = (pv, st)
+            elif isinstance(st, (ast.If, ast.For, ast.While, ast.With,
+                                 ast.Try)):
+                for fld in ("body", "orelse", "finalbody"):
+                    visit(getattr(st, fld, []) or [])
+    # residual statistics: tuple (mean, std) of the residual image
+    env["residual[0]"] = "O"
+    env["residual[1]"] = "E"
+    visit(loop.body)
+    for attr, want in sorted(FIELD_PARITY.items()):
+        if attr not in checked:
+            continue
+        pv, st = checked[attr]
+        n += 1
+        ctx.check("C13-R5", fi, "source.%s is %s" % (attr, WORD.get(
+            pv, pv)[:12]), pv == want,
+            "under negation of the image source.%s must be %s but the "
+            "stored value is %s: the catalogue of the negated image is not "
+            "the negated catalogue" % (attr, WORD[want][:9],
+                                       WORD.get(pv, pv)), node=st)
+    ctx.floor("C13-R5", n, 8, "catalogue fields with a parity")
